@@ -176,7 +176,7 @@ pub fn execute(prog: &Prog, vm: &mut Vm, obs: &mut Obs) -> Result<Execution, Str
     for env in ff::envs(&norm) {
         let mine = ff::interpret(&norm, &r.probe_ids, env, &mut loop_stats, &mut site_types);
         let opaque: Vec<bool> = (0..ff::N_OPAQUE).map(|k| env >> k & 1 == 1).collect();
-        let (ev, end) = vm.run(&r.text, &opaque, 400_000);
+        let (ev, end) = vm.run(&r.text, &opaque, 200_000);
         runs += 1;
         match &end {
             End::CompileError(m) => {
